@@ -174,6 +174,7 @@ def start_index(R, ctx):
     R.check('R06.2', f"{b.path}|number-up-to-first-dot", bool(parses) and cut, "the parsed text is cut at the first '.'",
             "get_highest_index parses the number from the whole remainder of the file stem: for a compressed file `x_r00003.log.gz` the stem is `x_r00003.log`, `00003.log` does not parse "
             "and counts as 0 - after a restart with only compressed files the numbering restarts below them and a later compression overwrites an existing .gz", where=b.loc())
+    highest_is_maximum(R, ctx, b)
     lb = ctx.body(r'^writers::file_log_writer::state::list_and_cleanup::list_of_log_and_compressed_files$')
     I = FDI(f, effects=[r'existing_log_files$'], no_inline=[r'existing_log_files$'])
     rows = I.run(lb.path)
@@ -185,6 +186,45 @@ def start_index(R, ctx):
     R.check('R06.2', f"{lb.path}|selector", ok2, "rotation = true, selector = plain + compressed, no current file",
             f"list_of_log_and_compressed_files no longer selects plain AND compressed files ({rows[0].effects[0][1] if rows and rows[0].effects else '?'}): with only .gz files left a restart would reuse their numbers",
             where=lb.loc())
+
+
+def highest_is_maximum(R, ctx, b, rule='R06.2'):
+    """the highest index is the MAXIMUM over ALL listed files, decided on the rows of get_highest_index: the iteration over the listing runs to its end
+    (no first hit), and the number of every listed file that parses is an operand of the result.  The listing is `plain files, then .gz files`, each
+    part sorted on its own - it is not sorted by number, and after an interrupted cleanup pass a .gz can carry a higher number than every plain file"""
+    f = ctx.f
+    PARSE = r'core::str::<impl str>::parse$'
+    LIST = r'list_of_log_and_compressed_files$'
+    OUTER = r'^<std::vec::IntoIter<T, A> as std::iter::Iterator>::next$|^<std::slice::Iter<.*> as std::iter::Iterator>::next$'
+    I = FDI(f, effects=[r'as std::iter::Iterator>::next$', PARSE, LIST], loop_k=2, no_inline=[PARSE, LIST], max_steps=40000, max_rows=20000)
+    bad = None
+    n = n2 = 0
+    for r in I.run(b.path):
+        if r.undecided:
+            raise CheckError(f"{rule} get_highest_index: UNDECIDED {r.undecided}")
+        outer = [e for e in r.effects if re.search(OUTER, e[0]) and LIST.rstrip('$') in r.long(e[1][0])]
+        if not outer:
+            raise CheckError(f"{rule} get_highest_index: iteration over the listing not recognised")
+        n += 1
+        res = r.long(repr(r.result))
+        if r.get(f"variant({outer[-1][0]}#{outer[-1][2].get('n')})") != 'None':
+            bad = (f"returns `{res[:60]}` after {len(outer)} listed file(s) without looking at the rest: first hit instead of the maximum (the listing is plain files then .gz "
+                   "files, not sorted by number)")
+            continue
+        oks = [e for e in r.effects if re.search(PARSE, e[0]) and r.get(f"variant({e[0]}#{e[2].get('n')})") == 'Ok']
+        if len(oks) >= 2:
+            n2 += 1
+        miss = [e for e in oks if f"parse#{e[2].get('n')}" not in res]
+        if miss:
+            bad = f"with {len(oks)} numbered files listed the result `{res[:70]}` does not take the number of every file into account"
+        elif re.search(r'\bmin\b', res):
+            bad = "uses min"
+        elif oks and not res.startswith('Option::Some'):
+            bad = f"returns `{res[:40]}` although numbered files are listed"
+    if not bad and (n < 3 or n2 < 1):
+        raise CheckError(f"{rule} get_highest_index: form not recognised ({n} rows, {n2} with two numbered files)")
+    R.check(rule, f"{b.path}|maximum-over-all-listed-files", not bad, f"{n} rows: the listing is iterated to its end and every parsed number is an operand of the result",
+            f"get_highest_index {bad}: a restart numbers below an existing (compressed) file - rCURRENT is renamed onto / a later compression overwrites an earlier file", where=b.loc())
 
 
 def start_table(R, ctx, restart_sibling_clause=True):
